@@ -431,9 +431,13 @@ fn step_choice_tdh(st: St, mode: u8, which: u8, no_data: bool) {
         w[6] = kani::any();
         w[7] = kani::any();
         w[8] = kani::any();
-    } else {
+    } else if which == 1 {
         f.bc = any_u12();
         kani::assume(f.bc < BC);
+        w = tdh_w(&f);
+    } else {
+        f.cont = true;
+        f.bc = BC + 5;
         w = tdh_w(&f);
     }
     let sane = ref_tdh_sane(&w);
@@ -448,8 +452,10 @@ fn step_choice_tdh(st: St, mode: u8, which: u8, no_data: bool) {
         }
     } else if mode == 1 {
         assert!(o.n_err == 0, "stateful rule reported by check sanity");
-    } else {
+    } else if which == 1 {
         assert!(o.any_at(b"[E440]", wpos) && o.n_err == 1, "TDH trigger_bc smaller than the previous TDH's not reported as [E440]");
+    } else {
+        assert!(o.any_at(b"[E4", wpos), "TDH with continuation = 1 after a TDT with packet_done = 1 not reported with a TDH error code at the word");
     }
     kani::cover!(which != 0 || sane, "conforming");
     kani::cover!(which != 0 || !sane, "insane");
@@ -464,6 +470,9 @@ H!(step_choice_tdh_nodata_sane, step_choice_tdh(St::AfterNoData, 2, 0, true));
 //@ harness: step_choice_tdh_e440 props=C02,C07 tier=quick class=functional covers=2 mem=10 timeout=900 est=40
 //@ bounds: state after TDT packet_done=1, check all its: conforming TDH with any bc below the previous TDH's: exactly one report, [E440], at the word
 H!(step_choice_tdh_e440, step_choice_tdh(St::AfterTdtDone, 2, 1, false));
+//@ harness: step_choice_tdh_cont props=C02,C07 tier=quick class=functional covers=2 mem=10 timeout=900 est=40
+//@ bounds: state after TDT packet_done=1, check all its: conforming TDH except continuation = 1 (documented: must be 0): reported with a TDH code [E4x] at the word
+H!(step_choice_tdh_cont, step_choice_tdh(St::AfterTdtDone, 2, 2, false));
 //@ harness: step_choice_tdh_e440_sanity props=C02 tier=quick class=functional covers=2 mem=10 timeout=900 est=40
 //@ bounds: same under check sanity its: not reported
 H!(step_choice_tdh_e440_sanity, step_choice_tdh(St::AfterTdtDone, 1, 1, false));
@@ -824,6 +833,8 @@ fn bad_padding(len: usize) {
     assert!(o2.n_err == 0, "protocol state not reset after the skipped payload");
     kani::cover!(pos == 0x40, "some offset");
     core::mem::forget(c);
+    core::mem::forget(tx2);
+    core::mem::forget(_rx2);
 }
 
 // =============================================================================================
